@@ -70,7 +70,7 @@ def _scene(ctx, c, e):
     probs = []
     if not np.allclose(system.u_dot0, acc, rtol=0, atol=1e-9 * (1 + np.max(np.abs(acc)))):
         probs.append(f"u_dot0 = {system.u_dot0.tolist()}, exact {acc.tolist()}")
-    if abs(system.la_N0[0] - laN) > 1e-9 * (1 + laN):
+    if not (abs(system.la_N0[0] - laN) <= 1e-9 * (1 + laN)):
         probs.append(f"la_N0 = {system.la_N0.tolist()}, exact {laN}")
     if not np.allclose(got_F, laF, rtol=0, atol=1e-9 * (1 + np.max(np.abs(laF)))):
         probs.append(f"la_F0 = {np.asarray(got_F).tolist()}, exact {laF.tolist()}")
@@ -265,7 +265,7 @@ def residual_record(system, rid, loose=False):
                 persistent = abs(gN[iN]) <= 1e-8 and abs(gNd[iN]) <= 1e-8
                 lam = la_N[iN]
                 if not persistent:
-                    if abs(lam) > 1e-9 * scale:
+                    if not (abs(lam) <= 1e-9 * scale):
                         sig = False
                         info["signorini"] = f"{c.name}: la_N = {lam} on a contact that is not persistent"
                 else:
